@@ -48,6 +48,11 @@ def c02_jobs(tier):
             sizes += [65535, 65536] if W[k] == 1 else [65536]
         for b in sizes:
             jobs.append(J("hsms", "ZZ_C02_boundary", kind=k, n=(b + W[k] - 1) // W[k], fuel=2_000_000_000, timeout_s=7200))
+    # deep chains (an encoder or decoder with its own stack), many empty children (counters that only some exits decrement)
+    for d in ((17, 40, 70) if tier == "quick" else (17, 33, 40, 65, 70, 130, 300)):
+        jobs.append(J("hsms", "ZZ_C02_chain", d=d, call_depth=3000, fuel=400_000_000))
+    for n, kind in ([(600, 0), (600, 1)] if tier == "quick" else [(600, 0), (600, 1), (70000, 0)]):
+        jobs.append(J("hsms", "ZZ_C02_manylists", n=n, kind=kind, fuel=2_000_000_000, timeout_s=7200))
     for n, parts in [(300, 1), (70000, 1), (16777215, 1), (40000, 3), (9000000, 2)]:  # top byte of the message length = 1; a list whose children add up to more than one item may hold
         jobs.append(J("hsms", "ZZ_C02_bigmessage", n=n, parts=parts, decode=0, heavy=(1 if n > 500000 else 0), fuel=16_000_000_000, timeout_s=7200))
     return jobs
@@ -62,6 +67,10 @@ def c01_jobs(tier):
     # a message whose list holds two 9 MB items (more bytes than any single item may have) survives the round trip
     jobs.append(J("hsms", "ZZ_C02_bigmessage", n=9000000, parts=2, decode=1, heavy=1, fuel=32_000_000_000, timeout_s=7200))
     jobs.append(J("hsms", "ZZ_C02_bigmessage", n=40000, parts=3, decode=1))
+    for d in (17, 40, 70):
+        jobs.append(J("hsms", "ZZ_C02_chain", d=d, call_depth=3000, fuel=400_000_000))
+    for n, kind in ((600, 0), (600, 1)):
+        jobs.append(J("hsms", "ZZ_C02_manylists", n=n, kind=kind, fuel=2_000_000_000, timeout_s=7200))
     if tier == "quick":
         jobs += [J("hsms", "ZZ_C01_tree", depth=2, width=2, menu=2, maxn=1)]
         bsizes = [255, 256, 257]
@@ -86,6 +95,8 @@ def c03_jobs(tier):
     ks = [0, 1, 2, 3] if tier == "quick" else [0, 1, 2, 3, 4, 5]
     jobs = [J("hsms", "ZZ_C03_raw", k=k, freelen=0, timeout_s=(1500 if tier == "quick" else 7200)) for k in ks]
     jobs += [J("hsms", "ZZ_C03_raw", k=k, freelen=1) for k in ([0, 1] if tier == "quick" else [0, 1, 2])]
+    # the same bytes as the front part of a larger buffer (16 zero bytes / 17 bytes repeating the input behind them)
+    jobs += [J("hsms", "ZZ_C03_raw", k=k, freelen=0, spare=sp, timeout_s=(1500 if tier == "quick" else 7200)) for k in ks[:4] for sp in (16, 17)]
     ns = [0, 1, 2] if tier == "quick" else [0, 1, 2, 3]
     for kind in range(1, 14):
         for n in ns:
@@ -94,6 +105,8 @@ def c03_jobs(tier):
                     if tier == "quick" and (n == 2 and nlb == 2 or corr in (5, 6, 7) and (n, nlb) != (1, 1)):
                         continue
                     jobs.append(J("hsms", "ZZ_C03_structured", kind=kind, n=n, nlb=nlb, corr=corr))
+                    if corr in (1, 3) and n == 1:
+                        jobs.append(J("hsms", "ZZ_C03_structured", kind=kind, n=n, nlb=nlb, corr=corr, spare=16 + nlb % 2))
     for kind in (3, 1):
         for nlb, present in ((2, 0), (2, 256), (2, 257), (3, 0), (3, 256), (3, 300)) + (() if tier == "quick" else ((3, 1000), (2, 1000))):
             if tier == "quick" and kind == 1 and present not in (256,):
@@ -122,8 +135,8 @@ def c07_jobs(tier):
                     jobs.append(J("hsms", "ZZ_C07_declared", depth=d, nlb=nlb, present=present, kind=kind))
     for nlb, kind in ((2, 1), (3, 1), (3, 0), (3, 3), (2, 6)):
         jobs.append(J("hsms", "ZZ_C07_sparecap", nlb=nlb, kind=kind, extra=200000, fuel=400_000_000, timeout_s=(1500 if tier == "quick" else 7200)))
-    for fam in range(9):
-        scale = {3: 15000, 6: 3000, 7: 8000, 8: 6000}.get(fam, 10000)  # members scale and 2*scale are decoded natively
+    for fam in range(12):
+        scale = {3: 15000, 6: 3000, 7: 8000, 8: 6000, 9: 8000, 10: 8000, 11: 8000}.get(fam, 10000)  # members scale and 2*scale are decoded natively
         jobs.append(J("hsms", "ZZ_C07_growth", fam=fam, j=(32 if tier == "quick" or fam == 6 else 128), scale=scale, fuel=400_000_000))
     return jobs
 
@@ -267,10 +280,13 @@ def c15_jobs(tier):
             jobs.append(J("sml", "ZZ_C15_literal", typ=typ, form=form, c=1, ka=2, kb=2, sp=1, nines=0, **T))
             if typ in (0, 3, 5):
                 jobs.append(J("sml", "ZZ_C15_literal", typ=typ, form=form, c=1, ka=1, kb=1, sp=0, nines=1, **T))
+                for z in (1, 2, 3):  # bounds zero-padded to 19, 20, 21 digits
+                    jobs.append(J("sml", "ZZ_C15_literal", typ=typ, form=form, c=(z if tier != "quick" else 1), ka=1, kb=1, sp=0, nines=0, zeros=z, **T))
     for form in range(4):
         for c in ([0, 1, 3] if tier == "quick" else [0, 1, 2, 3, 4, 12]):
             for ka, kb in ([(1, 1)] if tier == "quick" else [(1, 1), (2, 2), (1, 3)]):
                 jobs.append(J("sml", "ZZ_C15_asciivar", form=form, c=c, ka=ka, kb=kb, sp=(c % 2), nines=0, **T))
+        jobs.append(J("sml", "ZZ_C15_asciivar", form=form, c=1, ka=1, kb=1, sp=0, nines=0, zeros=2, **T))
     for c in (0, 1, 2, 5):
         jobs.append(J("sml", "ZZ_C15_direct", c=c))
     for c in (0, 1, 3, 6):
@@ -278,7 +294,7 @@ def c15_jobs(tier):
     return jobs
 
 
-SKEL_LEN = [43, 36, 6, 21, 41, 25, 62, 53, 34]
+SKEL_LEN = [43, 36, 6, 21, 41, 25, 62, 53, 34, 19, 45]
 
 
 def c06_jobs(tier):
@@ -286,7 +302,7 @@ def c06_jobs(tier):
     T = dict(timeout_s=(1500 if tier == "quick" else 7200))
     for k in ([0, 1, 2, 3] if tier == "quick" else [0, 1, 2, 3, 4]):
         jobs.append(J("sml", "ZZ_C06_raw", k=k, **T))
-    for sk in range(9):
+    for sk in range(11):
         # one arbitrary byte at every position: sharded by position ranges via explicit pos
         for pos in range(SKEL_LEN[sk] + 1):
             if tier == "quick" and sk in (0, 4) and pos % 2 == 1:
@@ -322,6 +338,13 @@ def c19_jobs(tier):
         for t2 in range(nt):
             for sep in range(ns):
                 jobs.append(J("sml", "ZZ_C19_concat", t1=t1, t2=t2, sep=sep, three=0, **T))
+    # separators that are runs of non-ASCII blanks; a reply without direction behind a primary with one
+    for sep in (8, 9, 10, 11):
+        for t1, t2 in ((0, 1), (4, 2), (2, 4)):
+            jobs.append(J("sml", "ZZ_C19_concat", t1=t1, t2=t2, sep=sep, three=0, **T))
+    for t1, t2 in ((13, 12), (0, 12), (12, 13), (13, 13), (2, 12)):
+        for sep in (1, 2):
+            jobs.append(J("sml", "ZZ_C19_concat", t1=t1, t2=t2, sep=sep, three=0, **T))
     # many warnings per message; names reused inside items of every type
     for t1, t2 in ((10, 10), (10, 1), (8, 10), (2, 10), (11, 11), (7, 11), (0, 11), (1, 11), (11, 7), (11, 0), (6, 11)):
         for sep in (0, 2, 5):
@@ -341,7 +364,7 @@ def c19_jobs(tier):
     return jobs
 
 
-SEQ_TOK = [20, 17, 16, 7, 14, 7, 16, 32, 29, 9, 8, 14]
+SEQ_TOK = [20, 17, 16, 7, 14, 7, 16, 32, 29, 9, 8, 14, 3, 6]
 
 
 def c08_jobs(tier):
@@ -387,7 +410,7 @@ def c04_jobs(tier):
             jobs.append(J("sml", "ZZ_C04_leaf", typ=typ, n=1, wide=1, query_ms=120000, **T))
     for w in (4, 8):
         jobs.append(J("sml", "ZZ_C04_float", w=w, **T))
-    for which in range(5):
+    for which in range(7):
         jobs.append(J("sml", "ZZ_C04_vars", which=which, symc=(0 if tier == "quick" else 1), **T))
     for t in range(7):
         jobs.append(J("sml", "ZZ_C04_fixed", t=t, **T))
@@ -472,6 +495,12 @@ def c13_jobs(tier):
             jobs.append(J("hsms", "ZZ_C03_lenbytes", kind=kind, nlb=nlb, present=present, fuel=2_000_000_000, timeout_s=(1500 if tier == "quick" else 7200)))
     for order in range(4):
         jobs.append(J("hsms", "ZZ_C03_mixed", order=order, fuel=400_000_000))
+    # items around the length-byte boundaries as list elements (a list's length arithmetic over its children), many empty lists
+    for t in range(1, 14):
+        w = TYPE_W[t]
+        jobs.append(J("hsms", "ZZ_C02_boundary", kind=t, n=256 // w + (1 if w == 1 else 0), fuel=2_000_000_000, timeout_s=7200))
+    for n, kind in ((600, 0), (600, 1)):
+        jobs.append(J("hsms", "ZZ_C02_manylists", n=n, kind=kind, fuel=2_000_000_000, timeout_s=7200))
     return jobs
 
 
